@@ -55,3 +55,16 @@ Theorem C20_append_to_indented_root_refuted :
   /\ valid_b std w_indented (after cfgtool_actual w_indented) = false
   /\ valid_b std w_indented (after (with_flag 1 cfgtool_actual) w_indented) = true.
 Proof. vm_compute. repeat split; reflexivity. Qed.
+
+(* finding eof_rstrip_changes_block_scalar at the byte level: the file ends inside the keep-chomped block scalar `note` (value
+   "keep" and three line breaks); init-config appends after rstrip(): two of the three blank lines are gone, the next line after
+   the one that is left is the banner of the first added section - the old text is not a prefix of the new one.  (White space
+   inside block scalars is not content for the subset semantics of Model/CfgMerge.v, so in_effect_b does not see the change: the
+   finding is matched by its input class and judged with PyYAML.) *)
+Definition w_tail : list string := ["note: |+"; "  keep"; ""; ""; ""].
+Theorem C20_eof_rstrip_refuted :
+  struct_r (analyse w_tail) = true
+  /\ firstn 4 (after cfgtool_actual w_tail) = ["note: |+"; "  keep"; ""; marker_line1]
+  /\ lines_eqb (firstn 5 (after cfgtool_actual w_tail)) w_tail = false
+  /\ in_effect_b w_tail (after cfgtool_actual w_tail) = true.
+Proof. vm_compute. repeat split; reflexivity. Qed.
